@@ -171,9 +171,6 @@ def case(ctx, rng, idx):
             if any(cons1.get(k, 0) < n_ for k, n_ in cons0.items()):
                 ctx.violation("%s:recorded-constraint-lost" % how, "recorded constraints per kind %r -> %r" % (cons0, cons1), {"history": hist})
                 return
-            if how.startswith("round") and {k: [dict(p) for p in v] for k, v in H.constraints.items()} != {k: [dict(p) for p in v] for k, v in Hb.constraints.items()}:
-                ctx.violation("%s:recorded-constraints-changed" % how, "rounding the model changed the recorded constraints", {"history": hist})
-                return
             for i in range(1 << len(labs)):
                 x = ref.assignment(i, labs, False)
                 if bool(H.is_solution_valid(x)) != bool(Hb.is_solution_valid(x)):
